@@ -91,6 +91,10 @@ package yubiagent
 //@ # the i-th request frame of the session without its code byte, as text (contents at the time it was read)
 //@ ghost func reqTail(i int) string = substr(strof(retc(yubiagent.read, i, 0), off(ret(yubiagent.read, i, 0)), len(ret(yubiagent.read, i, 0))), 1, len(ret(yubiagent.read, i, 0)))
 //@ ghost func reqCode(i int) int = at(retc(yubiagent.read, i, 0), off(ret(yubiagent.read, i, 0)), 0)
+//@ # request codes that are NOT relayed raw: the five extensions of this package (31..35) and the nine standard requests handed to the
+//@ # x/crypto server (1, 11, 13, 17, 18, 19, 22, 23, 25: draft-miller-ssh-agent, 7.1); every other code is an "unknown" request
+//@ ghost func rawKind(c int) bool = !(c == 31 || c == 32 || c == 33 || c == 34 || c == 35 ||
+//@   c == 1 || c == 11 || c == 13 || c == 17 || c == 18 || c == 19 || c == 22 || c == 23 || c == 25)
 //@ func ServeAgent(agent, c)
 //@   requires agent != nil && c != nil
 //@   requires typeof(agent) == *server ==> (pl(agent) != 0 &&
@@ -129,6 +133,10 @@ package yubiagent
 //@       (parseOK(retc(yubiagent.read, i, 0), off(ret(yubiagent.read, i, 0)) + 1, len(ret(yubiagent.read, i, 0)) - 1) ==>
 //@         (blobid(arg(ShimAgent.AddHardCert, k, 1)) == contentOf(retc(yubiagent.read, i, 0), off(ret(yubiagent.read, i, 0)) + 1, len(ret(yubiagent.read, i, 0)) - 1) &&
 //@          arg(ShimAgent.AddHardCert, k, 2) == ""))))
+//@   # ... and, conversely, every unknown request that was served reached Forward as it was read (the last read may still be in flight when the call ends)
+//@   ensures [every-unknown-request-reaches-forward] forall(i, old(calls(yubiagent.read)) <= i && i < calls(yubiagent.read) - 1,
+//@     (ret(yubiagent.read, i, 1) == nil && len(ret(yubiagent.read, i, 0)) >= 1 && rawKind(reqCode(i))) ==>
+//@     exists(k, old(calls(ShimAgent.Forward)) <= k && k < calls(ShimAgent.Forward), arg(ShimAgent.Forward, k, 0) == agent && arg(ShimAgent.Forward, k, 1) == ret(yubiagent.read, i, 0)))
 //@   loop 1:
 //@     invariant reads() >= 0 && responses() == reads()
 //@     invariant (typeof(agent) == *server && typeof(agent.(*server).ShimAgent) == *shimagent.Server) ==> shimagent.condsOK(agent.(*server).ShimAgent.(*shimagent.Server))
@@ -161,6 +169,9 @@ package yubiagent
 //@         (parseOK(retc(yubiagent.read, i, 0), off(ret(yubiagent.read, i, 0)) + 1, len(ret(yubiagent.read, i, 0)) - 1) ==>
 //@           (blobid(arg(ShimAgent.AddHardCert, k, 1)) == contentOf(retc(yubiagent.read, i, 0), off(ret(yubiagent.read, i, 0)) + 1, len(ret(yubiagent.read, i, 0)) - 1) &&
 //@            arg(ShimAgent.AddHardCert, k, 2) == ""))))
+//@     invariant [every-unknown-request-reaches-forward] forall(i, old(calls(yubiagent.read)) <= i && i < calls(yubiagent.read),
+//@       (ret(yubiagent.read, i, 1) == nil && len(ret(yubiagent.read, i, 0)) >= 1 && rawKind(reqCode(i))) ==>
+//@       exists(k, old(calls(ShimAgent.Forward)) <= k && k < calls(ShimAgent.Forward), arg(ShimAgent.Forward, k, 0) == agent && arg(ShimAgent.Forward, k, 1) == ret(yubiagent.read, i, 0)))
 
 //@ # ---------------------------------------------------------------- C13: the client side
 //@ # the connection is used by one operation at a time: request frame, then reply frame, under connLock
